@@ -9,13 +9,14 @@ StrD(c) == [t |-> "str", c |-> c]
 BoolD(b) == [t |-> "bool", bv |-> b]
 Null == [t |-> "null"]
 Pool == {NumD(N1), NumD(N2_5), StrD(Sa), StrD(Sb), StrD(S1), BoolD(TRUE), BoolD(FALSE), Null, StrD(Sa_b), NumD(N10)}
-Docs == Pool \cup {NumD(N2), StrD(Sabc), NumD(N1_0), StrD(<<116, 114, 117, 101>>), StrD(<<110, 117, 108, 108>>), StrD(<<97, 47, 98>>), StrD(<<34, 97>>), StrD(<<8, 12, 47>>), StrD(<<49, 46, 53>>), StrD(<<97, 46, 98>>), StrD(<<49, 48>>), NumD(<<49, 46, 53>>),
+Docs == Pool \cup {NumD(N2), StrD(Sabc), NumD(N1_0), StrD(<<116, 114, 117, 101>>), StrD(<<110, 117, 108, 108>>), StrD(<<97, 47, 98>>), StrD(<<34, 97>>), StrD(<<8, 12, 47>>), StrD(<<97, 127, 98>>), StrD(<<233, 8364>>), StrD(<<127>>), StrD(<<49, 46, 53>>), StrD(<<97, 46, 98>>), StrD(<<49, 48>>), NumD(<<49, 46, 53>>),
                    StrD(<<97, 92>>), StrD(<<7>>), StrD(<<97, 127>>), StrD(<<12, 31>>), StrD(<<34, 92, 9>>), StrD(Sab), StrD(Sxaby), StrD(Sempty), StrD(<<97, 10, 99>>), StrD(Sac), StrD(<<48, 49, 50>>), StrD(<<97, 46, 99>>), StrD(<<97, 120, 99>>)}
 Strs3 == UNION {[1..n -> {97, 98, 47}] : n \in 0..3}                      \* Level 2: every string up to 3 over a, b, /
 AllDocs == Docs \cup (IF Level = 2 THEN {StrD(c) : c \in Strs3} ELSE {})
 DocSeq == SetToSeq(AllDocs)
 Lists == UNION {[1..k -> Pool] : k \in 1..(IF Level = 1 THEN 2 ELSE 3)}
          \cup {<<StrD(<<49, 46, 53>>), NumD(N2_5)>>, <<StrD(<<97, 46, 98>>), StrD(<<49, 48>>), NumD(N10)>>}      \* strings that look like numbers: "1.5", "a.b", "10"
+         \cup {<<StrD(<<97, 127, 98>>), StrD(Sa)>>, <<StrD(<<233, 8364>>), StrD(<<127>>)>>}                        \* DEL and characters outside ASCII, written raw
          \cup {<<StrD(<<97, 47, 98>>), StrD(Sa)>>, <<StrD(<<8, 12, 47>>), StrD(<<97, 92>>), StrD(<<34, 97>>)>>}       \* every short escape, the solidus included (layout 7)
          \cup {<<NumD(N1), StrD(S1), BoolD(TRUE), StrD(<<116, 114, 117, 101>>)>>, <<Null, StrD(<<110, 117, 108, 108>>), NumD(N1), NumD(N1_0)>>}
 HasDup(l) == \E i, j \in DOMAIN l : i < j /\ SameScalar(l[i], l[j]) = "accept"
